@@ -269,6 +269,41 @@ def check_C15(chk, tier, seed):
                 data = SAMPLE_DATA[ty or "u32"]
                 cases.append(f"X {did} {xb(one_avp_frame(5000, wire_v, data))}")
                 expect.append(("scope", ty, f"{TY_XML_NAME[ta]}/{TY_XML_NAME[tb]} twins", (sa, sb), wire_v))
+    # codes that a lossy table would fold onto a defined one: c + k*1024, c + 2^16, c + 2^20, c + 2^24, c + 2^31, c with its
+    # octets swapped - none of them is defined, each must be refused; and the defined code itself still decodes
+    did = f"t{k}"
+    k += 1
+    base_codes = [1, 263, 1000, 1023]
+    apps = [dict(name=b"GenApp", id=4, cmds=[], avps=[dict(code=c, vendor=None, name=f"Base-{c}".encode(), tyname=b"Unsigned32", must=None) for c in base_codes])]
+    prelude.append(dict_line(did, [load_toks(gen_xml(apps), apps)]))
+    for c in base_codes:
+        cases.append(f"X {did} {xb(one_avp_frame(c, None, SAMPLE_DATA['u32']))}")
+        expect.append(("scope", "u32", "Unsigned32", None, None))
+        for alias in sorted({c + 1024, c + 2048, c + 65536, c + (1 << 20), c + (1 << 24), (c + (1 << 31)) & 0xffffffff, int.from_bytes(c.to_bytes(4, "big"), "little"), c ^ 0x400}):
+            if alias in base_codes:
+                continue
+            cases.append(f"X {did} {xb(one_avp_frame(alias, None, SAMPLE_DATA['u32']))}")
+            expect.append(("scope", None, f"alias {alias:#x} of defined code {c}", None, None))
+    # a pair whose type was recognised and is then re-declared with a type name the library does not recognise (in the same
+    # document, by a later document, by add_avp): from then on nothing decodes under it
+    for how in ("same-doc", "later-doc", "add"):
+        did = f"t{k}"
+        k += 1
+        first = dict(code=5000, vendor=None, name=b"Probe", tyname=b"Unsigned32", must=None)
+        second = dict(code=5000, vendor=None, name=b"Probe", tyname=b"IPFilterRule", must=None)
+        if how == "same-doc":
+            apps = [dict(name=b"GenApp", id=4, cmds=[], avps=[first, second])]
+            ops = [load_toks(gen_xml(apps), apps)]
+        elif how == "later-doc":
+            a1 = [dict(name=b"GenApp", id=4, cmds=[], avps=[first])]
+            a2 = [dict(name=b"GenApp", id=4, cmds=[], avps=[second])]
+            ops = [load_toks(gen_xml(a1), a1), load_toks(gen_xml(a2), a2)]
+        else:
+            a1 = [dict(name=b"GenApp", id=4, cmds=[], avps=[first])]
+            ops = [load_toks(gen_xml(a1), a1), add_toks(dict(code=5000, vendor=None, name=b"Probe", ty="unk", m=False))]
+        prelude.append(dict_line(did, ops))
+        cases.append(f"X {did} {xb(one_avp_frame(5000, None, SAMPLE_DATA['u32']))}")
+        expect.append(("scope", None, f"Unsigned32 re-declared as IPFilterRule ({how})", None, None))
     # the same table again in another order: consecutive decodes now carry the SAME (code, vendor) on the wire under
     # DIFFERENT dictionaries (an answer remembered from the previous decode, keyed by code and vendor only, would be wrong)
     n0 = len(cases)
@@ -318,7 +353,7 @@ def check_C15(chk, tier, seed):
             want_ok = ty is not None and ty != "unk"
             if im.startswith("OK ") != want_ok:
                 ok = False
-                chk.violation(f"AVP (code 5000, vendor {wire_v}) with the entry/entries under vendor {scope} and type name '{tyname}': "
+                chk.violation(f"AVP code 0x{c.split()[2][41:49]} (vendor {wire_v}) with the entry/entries under vendor {scope} and type name '{tyname}': "
                               + ("decoded although no entry / no recognised type applies" if not want_ok else "rejected although its exact entry has a recognised type"),
                               dict(case=c, impl=short(im, 1000)))
             elif want_ok:
@@ -417,6 +452,32 @@ def check_C16(chk, tier, seed):
             else:
                 expect.append(("stale", hist_line("g", ("NEW", 272, 4, 0x80, 1, 2), []), 0, "g"))
 
+    # a dictionary that grows in place: a by-name build (whatever index a dictionary keeps is now built), then add_avp of a NEW
+    # name, then a by-name build of that name - it must be found; and a name re-declared for another key is found there
+    for rnd in range(3 if tier == "quick" else 20):
+        base = dict(code=7100 + rnd, vendor=None, name=f"Grow-Base-{rnd}".encode(), ty="u32", m=False)
+        later = dict(code=7200 + rnd, vendor=10415 if rnd % 2 else None, name=f"Grow-Later-{rnd}".encode(), ty="u32", m=bool(rnd % 2))
+        v = ("L", SAMPLE_LEAF["u32"])
+        cases.append(dict_line("grow", [add_toks(base)]))
+        expect.append(("ctl", None, 0, "-"))
+        cases.append(hist_line("grow", ("NEW", 272, 4, 0x80, 1, 2), [("ADDNAME", base["name"], v)]))
+        expect.append(("byname", [base], v, "g"))
+        cases.append(hist_line("grow", ("NEW", 272, 4, 0x80, 1, 2), [("ADDNAME", later["name"], v)]))
+        expect.append(("stale", hist_line("g", ("NEW", 272, 4, 0x80, 1, 2), []), 0, "g"))
+        cases.append(f"DADD grow {add_toks(later)}")
+        expect.append(("ctl", None, 0, "-"))
+        cases.append(hist_line("grow", ("NEW", 272, 4, 0x80, 1, 2), [("ADDNAME", later["name"], v)]))
+        expect.append(("byname", [later], v, "g"))
+        cases.append(hist_line("grow", ("NEW", 272, 4, 0x80, 1, 2), [("ADDNAME", base["name"], v)]))
+        expect.append(("byname", [base], v, "g"))
+    # names the library's built-in dictionary knows, asked of dictionaries that do not contain them: what a name resolves to
+    # is decided by the message's own dictionary alone
+    for did in ("g", "x"):
+        have = {d["name"] for d in eng.dicts[did].live()}
+        for nm in (b"Origin-Host", b"Session-Id", b"Result-Code", b"Origin-Realm", b"Destination-Host", b"CC-Request-Type", b"User-Name"):
+            if nm not in have:
+                cases.append(hist_line(did, ("NEW", 272, 4, 0x80, 1, 2), [("ADDAVP", 1011, None, 0, ("L", ("oct", b"x"))), ("ADDNAME", nm, ("L", SAMPLE_LEAF["u32"]))]))
+                expect.append(("unknown", hist_line(did, ("NEW", 272, 4, 0x80, 1, 2), [("ADDAVP", 1011, None, 0, ("L", ("oct", b"x")))]), 1, did))
     # unknown names interleaved in histories: the failed call must change nothing
     n = 600 if tier == "quick" else 30000
     for i in range(n):
